@@ -339,6 +339,8 @@ class DFXPWriter(BaseWriter):
         :rtype: str
         """
         dfxp = BeautifulSoup(DFXP_BASE_MARKUP, 'lxml-xml')
+        # no span can be open when a document starts, whatever was written before
+        self.open_span = False
 
         langs = caption_set.get_languages()
         if force in langs:
